@@ -53,6 +53,8 @@ def histories(strict=False, guaranteed_bias=False, max_ticks=40):
         # every n-th send callback is application code that sends a follow-up guaranteed message from inside the callback
         # (i.e. while the library is processing an ack or a timeout); 0 = none
         "cb_sends_every": st.sampled_from([0, 0, 2, 3]),
+        # the client application runs a frame (update() + getMessages()) only every k-th step: 60 Hz server, 60/k Hz client
+        "client_every": st.sampled_from([1, 1, 1, 2, 3, 6]),
         "burst": st.one_of(st.none(), st.none(), st.none(), st.fixed_dictionaries({
             "tick": st.integers(0, max_ticks), "side": st.sampled_from(["c", "s"]), "count": st.sampled_from([40, 257, 300, 420]),
             "size": st.sampled_from([0, 1, 8, 30]), "retry": st.sampled_from([0, 1, -1])})),
@@ -172,8 +174,14 @@ def run(ctx, c, oracle, per_step=None, link_setup=None, payload_fn=None):
                         f.lost_frags[k] = f.lost_frags.get(k, 0) + 1
             f.lost_seen = len(link.dropped)
 
+        client_every = c.get("client_every", 1)
+        if c["strict"]:
+            client_every = min(client_every, 3)
+        nstep = [0]
+
         def step():
-            w.step(c["dt"])
+            nstep[0] += 1
+            w.step(c["dt"], clients=(nstep[0] % client_every == 0))
             account_losses()
             for side, conn in f.conns.items():
                 st_ = conn.stats
@@ -260,7 +268,10 @@ def run(ctx, c, oracle, per_step=None, link_setup=None, payload_fn=None):
         # heal phase: until every retransmittable / callback-carrying send is resolved, or the cap
         timeout = max(ch.conn.outgoing_timeout, sconn.outgoing_timeout, f.timeout_cfg["c"], f.timeout_cfg["s"])
         per_tick = max(200, P // 2)
-        cap = 3 * timeout + 4 * (total_bytes / per_tick) * c["dt"] + 10.0
+        # (a client that runs a frame only every k-th step sends k times more slowly, and its best-effort resends - due every
+        # 0.1 s, i.e. every frame at 10 Hz - compete with new fragments for the one datagram per frame)
+        slow = 1 if client_every == 1 else 2 * client_every
+        cap = 3 * timeout + 4 * (total_bytes / per_tick) * c["dt"] * slow + 10.0
         f.cap = cap
 
         def resolved():
